@@ -49,14 +49,22 @@ def _valid(c):
 
 
 # ------------------------------------------------------------------ (2) the bijection lemma, all div, FFT
-@unit("C03", "lemma: (FFT index i, K index x) -> n = i*div + x is a bijection onto the dense mesh, and k = n/(div*FFT)", expect_min=3)
+@unit("C03", "lemma: (FFT index i, K index x) -> n = i*div + x is a bijection onto the dense mesh, and k = n/(div*FFT)", expect_min=3, timeout_ms=60000)
 def _lemma(U):
-    def inj():
-        d, f = sint("div"), sint("FFT")
-        i, x, i2, x2 = sint("i"), sint("x"), sint("i2"), sint("x2")
-        hyp = [d >= 1, f >= 1, i >= 0, i < f, x >= 0, x < d, i2 >= 0, i2 < f, x2 >= 0, x2 < d, i * d + x == i2 * d + x2]
-        return hyp, land(i == i2, x == x2)
-    U.lemma("injective", inj)
+    # injectivity, split so that no step needs more non-linear reasoning than "a >= 0 and div >= 1 give a*div >= 0" (the one-goal form was
+    # decided in 1-3 s on an idle machine but went `unknown` at 10 s with all cores busy): WLOG i2 = i + 1 + a with a >= 0 is impossible
+    # (the symmetric case is this one with the names exchanged), and i2 == i leaves a linear statement
+    def inj_lt():
+        d, i, a, x, x2 = sint("div"), sint("i"), sint("a"), sint("x"), sint("x2")
+        hyp = [d >= 1, a >= 0, i >= 0, x >= 0, x < d, x2 >= 0, x2 < d, i * d + x == (i + 1 + a) * d + x2]
+        return hyp, a < 0          # contradicts a >= 0: derivable only because the hypotheses are inconsistent, i.e. the case cannot occur
+    U.lemma("injective: two different FFT indices never give the same n (i2 = i + 1 + a, a >= 0)", inj_lt)
+
+    def inj_eq():
+        d, i, x, x2 = sint("div"), sint("i"), sint("x"), sint("x2")
+        hyp = [d >= 1, i >= 0, x >= 0, x < d, x2 >= 0, x2 < d, i * d + x == i * d + x2]
+        return hyp, x == x2
+    U.lemma("injective: with the same FFT index, the same n means the same K index", inj_eq)
 
     def rng():
         d, f, i, x = sint("div"), sint("FFT"), sint("i"), sint("x")
